@@ -162,8 +162,9 @@ func TimeFromString(str string) (dates.TimeOfDay, error) {
 func parseDate(env Environment, str string) (dates.Date, string, error) {
 	str = strings.Trim(str, " \n\r\t")
 
-	// try to parse as ISO date
-	asISO, err := time.ParseInLocation(iso8601DateOnlyFormat, str[0:min(len(iso8601DateOnlyFormat), len(str))], env.Timezone())
+	// try to parse as ISO date (in UTC because only the calendar date is wanted, and midnight doesn't exist in
+	// every timezone on every day)
+	asISO, err := time.ParseInLocation(iso8601DateOnlyFormat, str[0:min(len(iso8601DateOnlyFormat), len(str))], time.UTC)
 	if err == nil {
 		return dates.ExtractDate(asISO), str[len(iso8601DateOnlyFormat):], nil
 	}
